@@ -24,7 +24,8 @@ MIN_NONTRIVIAL = {"quick": 3000, "thorough": 30000}
 REQUIRED_PROBES = ["get_spans", "filllower"]
 REQUIRED_FEATURES = ["window:anchored", "window:disjoint", "window:overlap", "window:nested",
                      "window:overlap:T", "window:nested:T", "window:disjoint:T", "spans:edge-on-empty-row",
-                     "file:legacy-int32-offset-index", "file:legacy-int32-offset-index:nnz^2>=2^31"]
+                     "file:legacy-int32-offset-index", "file:legacy-int32-offset-index:nnz^2>=2^31",
+                     "file:pixel-stored-as-two-records"]
 
 PATS = ["dense", "sparse30", "sparse70", "emptyrows", "nodiag", "diag", "fullrow", "lastrow", "isolated",
         "sparse05", "empty", "emptyrows"]
@@ -122,7 +123,9 @@ def check_window(c, api, h5, D, rows, nnz, symm, w, chunks, mkey, field="count")
             return False
         sp = api.matrix(h5, i0, i1, j0, j1, field, False, True, False, False, True, False, cs, symm)
         coords = list(zip(sp.row.tolist(), sp.col.tolist()))
-        if sp.shape != ref.shape or len(set(coords)) != len(coords):
+        # (a coordinate may repeat only as often as the file itself stores that pixel)
+        stored_twice = {(r[1], r[2]) for r in rows} if len({(r[1], r[2]) for r in rows}) < len(rows) else None
+        if sp.shape != ref.shape or (len(set(coords)) != len(coords) and stored_twice is None):
             c.fail(window_key("sparse-duplicate", w, symm),
                    f"sparse window {w} chunksize={cs}: shape {sp.shape} or repeated coordinate",
                    {"matrix": mkey, "window": w, "chunksize": cs, "coords": coords[:40]})
@@ -178,8 +181,27 @@ def one_matrix(ctx, cid, rng, n, pat, symm, nsample, legacy=None):
     if group != "/" and rng.random() < 0.5:
         make_cooler(path, [["r", [0, 1, 2]]], {(0, 1): 9})         # another collection sits at the root
     E = {kk: float(int(rng.integers(-60, 60))) / 4.0 for kk in P}
-    make_cooler(path + ("::" + group if group != "/" else ""), bt, P, symm=symm, mode="a", extra={"score": E},
-                count_dtype=np.float64 if values == "dyadic" else None)
+    dupkey = None
+    if P and n <= 40 and rng.random() < 0.15 and len(P) < (n * (n + 1) // 2 if symm else n * n):
+        # a pixel stored as TWO records (last of one input chunk, first of the next: creation accepts that);
+        # every output form must then show their sum / both records
+        import cooler
+        dupkey = sorted(P)[int(rng.integers(len(P)))]
+        df = gen.pixels_frame(P, {"score": E}, count_dtype=np.float64 if values == "dyadic" else None)
+        r_ = sorted(P).index(dupkey)
+        v1 = P[dupkey] / 2 if values == "dyadic" else P[dupkey] // 2
+        c1, c2 = df.iloc[: r_ + 1].copy(), df.iloc[r_:].copy()
+        c1.iloc[-1, c1.columns.get_loc("count")] = v1
+        c2.iloc[0, c2.columns.get_loc("count")] = P[dupkey] - v1
+        c2.iloc[0, c2.columns.get_loc("score")] = 0.0
+        kw_ = dict(columns=["count", "score"], ordered=True, symmetric_upper=symm, mode="a",
+                   dtypes={"count": np.float64, "score": np.float64} if values == "dyadic" else {"score": np.float64})
+        if not symm:
+            kw_["triucheck"] = False
+        cooler.create_cooler(path + ("::" + group if group != "/" else ""), gen.bt_frame(bt), iter([c1, c2]), **kw_)
+    else:
+        make_cooler(path + ("::" + group if group != "/" else ""), bt, P, symm=symm, mode="a", extra={"score": E},
+                    count_dtype=np.float64 if values == "dyadic" else None)
     if legacy is None:
         legacy = bool(rng.random() < 0.2)
     if legacy:
@@ -196,11 +218,25 @@ def one_matrix(ctx, cid, rng, n, pat, symm, nsample, legacy=None):
     DE = model.dense(E, n, symm)
     rowsE = [(k, i, j, E[(i, j)]) for k, (i, j) in enumerate(sorted(P))]
     rows = [(k, i, j, P[(i, j)]) for k, (i, j) in enumerate(sorted(P))]
-    nnz = len(P)
+    if dupkey is not None:
+        recs, recsE = [], []
+        for (i, j) in sorted(P):
+            if (i, j) == dupkey:
+                v1 = P[dupkey] / 2 if values == "dyadic" else P[dupkey] // 2
+                recs += [(i, j, v1), (i, j, P[dupkey] - v1)]
+                recsE += [(i, j, E[dupkey]), (i, j, 0.0)]
+            else:
+                recs.append((i, j, P[(i, j)]))
+                recsE.append((i, j, E[(i, j)]))
+        rows = [(k, i, j, v) for k, (i, j, v) in enumerate(recs)]
+        rowsE = [(k, i, j, v) for k, (i, j, v) in enumerate(recsE)]
+    nnz = len(rows)
     chunks = sorted(set([1, 2, 3, max(nnz, 1), nnz + 1])) + [10_000_000]
     mkey = {"n": n, "pattern": pat, "symm": symm, "pixels": sorted((i, j, v) for (i, j), v in P.items())}
     with ctx.case(cid, {"n": n, "pattern": pat, "symm": symm, "nnz": nnz, "chunksizes": chunks}) as c:
         c.feature(f"mode:{'symm' if symm else 'square'}", f"pattern:{pat}")
+        if dupkey is not None:
+            c.feature("file:pixel-stored-as-two-records")
         if legacy:
             c.feature("file:legacy-int32-offset-index")
         if legacy and nnz > 46341:
